@@ -1,0 +1,26 @@
+//go:build verif
+
+package shovel
+
+import (
+	"context"
+
+	"github.com/indexsupply/shovel/shovel/config"
+	"github.com/jackc/pgx/v5/pgxpool"
+)
+
+// Test-only exports for the deterministic simulation harness.
+
+// VerifStop closes the current restart channel so that every runner of the
+// current generation returns at its next loop iteration.
+func (tm *Manager) VerifStop() { close(tm.restart) }
+
+func LoadTasks(ctx context.Context, pgp *pgxpool.Pool, c config.Root) ([]*Task, error) {
+	return loadTasks(ctx, pgp, c)
+}
+
+func (t *Task) VerifSrcName() string         { return t.srcName }
+func (t *Task) VerifIGName() string          { return t.destConfig.Name }
+func (t *Task) VerifRange() (uint64, uint64) { return t.start, t.stop }
+func (t *Task) VerifBatch() (int, int)       { return t.batchSize, t.concurrency }
+func (t *Task) VerifSource() Source          { return t.src }
